@@ -1481,6 +1481,37 @@ def _split_chain_loops(mods: dict[str, Module], log: list[str]) -> None:
         log.append(f"{n} loop(s) over itertools.chain(...) read as consecutive loops")
 
 
+def _map_to_comprehension(mods: dict[str, Module], log: list[str]) -> None:
+    """`list(map(f, xs))` / `tuple(map(f, xs))` with `f` a plain reference or a one-parameter lambda is read as the comprehension `[f(x) for x in xs]`."""
+    n = 0
+
+    class T(ast.NodeTransformer):
+        def visit_Call(self, node: ast.Call):  # noqa: N802
+            nonlocal n
+            self.generic_visit(node)
+            if isinstance(node.func, ast.Name) and node.func.id in ("list", "tuple") and len(node.args) == 1 and not node.keywords:
+                m = node.args[0]
+                if isinstance(m, ast.Call) and isinstance(m.func, ast.Name) and m.func.id == "map" and len(m.args) == 2 and not m.keywords:
+                    fn_, xs = m.args
+                    var = f"item__{getattr(node, 'lineno', 0)}_{getattr(node, 'col_offset', 0)}"
+                    elt = None
+                    if _simple(fn_):
+                        elt = ast.Call(func=fn_, args=[ast.Name(id=var, ctx=ast.Load())], keywords=[])
+                    elif isinstance(fn_, ast.Lambda) and len(fn_.args.args) == 1 and not fn_.args.defaults and not fn_.args.vararg and not fn_.args.kwarg:
+                        elt = _Subst({fn_.args.args[0].arg: ast.Name(id=var, ctx=ast.Load())}).visit(_clone(fn_.body))
+                    if elt is not None:
+                        n += 1
+                        comp = ast.ListComp(elt=elt, generators=[ast.comprehension(target=ast.Name(id=var, ctx=ast.Store()), iter=xs, ifs=[], is_async=0)])
+                        out = comp if node.func.id == "list" else ast.Call(func=ast.Name(id="tuple", ctx=ast.Load()), args=[comp], keywords=[])
+                        return ast.fix_missing_locations(ast.copy_location(out, node))
+            return node
+
+    for mod in mods.values():
+        mod.tree = T().visit(mod.tree)
+    if n:
+        log.append(f"{n} list(map(f, xs)) call(s) read as comprehensions")
+
+
 def _split_conditional_with(mods: dict[str, Module], log: list[str]) -> None:
     """`with f(x, mode=A if c else B) as v: body` with a pure test `c` is read as `if c: with f(.., A): body else: with f(.., B): body`, and inside a branch
     taken under `c` (resp. `not c`) a nested `if c:` keeps only the branch that can run."""
@@ -2031,6 +2062,7 @@ def canonicalise(mods: dict[str, Module]) -> dict:
     _cm_to_generator(mods, cm_log)
     _inline_new_constants(mods, inv, cm_log)
     align_locals(mods, inv, loc_log)
+    _map_to_comprehension(mods, cm_log)
     _inline_local_closures(mods, cm_log)
     _inline_new_properties(mods, inv, cm_log)
     inl = Inliner(mods, inv)
